@@ -32,6 +32,23 @@ Isolated(t) == t.n >= 2 /\ \E d \in TD(t) : \A u \in TD(t) : (~TEdge(t, u, d) /\
 \* a chain input that is read by a discipline which also reads the output of an earlier discipline
 PassThrough(t) == \E v \in TChainIn(t) : \E d \in Cons(t, v) : \E u \in TD(t) : (u < d /\ TEdge(t, u, d))
 
+\* SELF-OVERWRITING members (state-update steps): a discipline that reads a name and writes a new value under
+\* the same name, e.g. (pos, vel) -> (pos, vel).  In the sequential data flow it reads the OLD values and the
+\* disciplines after it read the NEW ones: the name has one more version.
+SelfOver(t, d) == t.ins[d] \cap t.outs[d]
+SelfOverwriting(t) == \E d \in TD(t) : SelfOver(t, d) # {}
+\* ... of two or more names at once (every new value depends on every old one: cross dependence)
+SelfOverwritingMulti(t) == \E d \in TD(t) : Cardinality(SelfOver(t, d)) >= 2
+\* ... the same name updated by two members (a step repeated in the chain)
+SelfOverwritingRepeated(t) == \E d, e \in TD(t) : (d < e /\ SelfOver(t, d) \cap SelfOver(t, e) # {})
+\* ... a later member that does not update the name itself reads the updated value
+SelfOverwritingRead(t) == \E d, e \in TD(t) : (d < e /\ (SelfOver(t, d) \cap t.ins[e]) \ t.outs[e] # {})
+\* ... two names updated by one member are both read by one later member (which may update them again): the
+\* derivative of what that member computes w.r.t. each OLD value goes through both NEW values
+SelfOverwritingCross(t) == \E d, e \in TD(t) : (d < e /\ Cardinality(SelfOver(t, d) \cap t.ins[e]) >= 2)
+\* ... a pure state update: the member writes nothing else than names it reads
+SelfOverwritingPure(t) == \E d \in TD(t) : t.outs[d] \subseteq t.ins[d]
+
 \* variables a variable depends on, by names (reflexive)
 DepStep(t, S) == S \cup UNION {t.ins[d] : d \in {e \in TD(t) : t.outs[e] \cap S # {}}}
 RECURSIVE DepIter(_, _, _)
@@ -39,6 +56,20 @@ DepIter(t, S, k) == IF k = 0 THEN S ELSE DepIter(t, DepStep(t, S), k - 1)
 Anc(t, v) == DepIter(t, {v}, t.n)
 \* two different inputs of one discipline share an ancestor: two paths to re-join
 Diamond(t) == \E d \in TD(t) : \E a, b \in t.ins[d] : (a # b /\ Anc(t, a) \cap Anc(t, b) # {})
+
+\* a name v with two definitions, the second by the discipline e, read by a later discipline c, such that the
+\* FIRST definition depends directly on a chain input x that nothing read by e depends on: the value c reads does
+\* not depend on x although an earlier definition of the same name does (a request w.r.t. x alone does not
+\* differentiate e)
+Shadowed(t) == \E v \in TVars(t) : \E e \in Prod(t, v) : \E c \in Cons(t, v) : \E x \in TChainIn(t) :
+                  /\ e < c
+                  /\ x \notin UNION {Anc(t, i) : i \in t.ins[e]}
+                  /\ (\/ (v \in TChainIn(t) /\ x = v)
+                      \/ \E d \in Prod(t, v) : (d < e /\ x \in t.ins[d]))
+\* members of a parallel / additive chain: an output with two producers d < e that share an input, and another
+\* chain output that d does not produce (a wider request leaves d's own request unchanged)
+AdditiveUneven(t) == \E v \in TVars(t) : \E d, e \in Prod(t, v) :
+                        (d < e /\ t.ins[d] \cap t.ins[e] # {} /\ TChainOut(t) \ t.outs[d] # {})
 
 RECURSIVE ReachIter(_, _, _)
 ReachIter(t, S, k) == IF k = 0 THEN S
@@ -56,5 +87,13 @@ Classes(t) ==
     (IF Overwritten(t) THEN {"overwritten"} ELSE {}) \cup
     (IF OverwrittenConsumed(t) THEN {"overwritten_consumed"} ELSE {}) \cup
     (IF InputIsOutput(t) THEN {"input_is_output"} ELSE {}) \cup
-    (IF NameCyclic(t) THEN {"name_cyclic"} ELSE {})
+    (IF NameCyclic(t) THEN {"name_cyclic"} ELSE {}) \cup
+    (IF Shadowed(t) THEN {"shadowed"} ELSE {}) \cup
+    (IF AdditiveUneven(t) THEN {"additive_uneven"} ELSE {}) \cup
+    (IF SelfOverwriting(t) THEN {"self_overwriting"} ELSE {}) \cup
+    (IF SelfOverwritingMulti(t) THEN {"self_overwriting_multi"} ELSE {}) \cup
+    (IF SelfOverwritingRepeated(t) THEN {"self_overwriting_repeated"} ELSE {}) \cup
+    (IF SelfOverwritingRead(t) THEN {"self_overwriting_read"} ELSE {}) \cup
+    (IF SelfOverwritingCross(t) THEN {"self_overwriting_cross"} ELSE {}) \cup
+    (IF SelfOverwritingPure(t) THEN {"self_overwriting_pure"} ELSE {})
 =============================================================================
